@@ -553,6 +553,44 @@ pub fn history_check(
     announce("sequential-after", 0, Op::Find, 0);
     let after = sequential_table(w, &keys, &mut |si, op, ii| announce("sequential-after", si, op, ii));
     rep.evals(after.len() as u64);
+    // order independence: the same operations one after the other in reverse
+    // and in a shuffled order, and each one twice in a row, must give the
+    // results of the first pass (a memo that survives between calls would
+    // make a result depend on what ran before it)
+    {
+        let mut uniq: Vec<(usize, Op, usize)> = before.keys().copied().collect();
+        uniq.sort();
+        let mut orders: Vec<Vec<(usize, Op, usize)>> = vec![];
+        let mut rev = uniq.clone();
+        rev.reverse();
+        orders.push(rev);
+        let mut sh = uniq.clone();
+        Rng::new(seed ^ 0x0DE5).shuffle(&mut sh);
+        orders.push(sh);
+        // under Miri keep it short
+        let cap = if cfg!(miri) { 40 } else { 4000 };
+        for (oi, order) in orders.iter().enumerate() {
+            for &(si, op, ii) in order.iter().take(cap) {
+                announce("sequential-reordered", si, op, ii);
+                let h1 = do_op(w, si, op, ii);
+                let h2 = if oi == 0 { do_op(w, si, op, ii) } else { h1 };
+                rep.eval();
+                rep.tally("reordered_sequential_ops");
+                if Some(&h1) != before.get(&(si, op, ii)) || h1 != h2 {
+                    rep.violation(
+                        &format!("history:{}:order_dependent_result", op.name()),
+                        format!(
+                            "{} on searcher {} gave a different result when run in a different order / twice in a row",
+                            op.name(),
+                            w.searchers[si].label()
+                        ),
+                        case_json(w, si, op, ii).with("seed", J::u(seed)),
+                    );
+                    break;
+                }
+            }
+        }
+    }
     let dbg_after: Vec<u64> = if cfg!(miri) { vec![] } else { w.searchers.iter().map(|s| s.debug_hash()).collect() };
     // --- purity across history
     for (k, v) in &before {
